@@ -393,6 +393,28 @@ func (a *apiServer) Publish(ctx context.Context, req *client.PublishRequest) (
 		return nil, err
 	}
 
+	return a.publishToStream(ctx, subject, req)
+}
+
+// publishInternal publishes a message on behalf of the server itself, e.g. an
+// activity stream event. There is no client whose permissions could be
+// checked, so unlike Publish this does not consult the authorization policy.
+func (a *apiServer) publishInternal(ctx context.Context, req *client.PublishRequest) (
+	*client.PublishResponse, error) {
+
+	subject, e := a.getPublishSubject(req)
+	if e != nil {
+		a.logger.Errorf("api: Failed to publish message: %v", e.Message)
+		return nil, convertPublishAsyncError(e)
+	}
+	return a.publishToStream(ctx, subject, req)
+}
+
+// publishToStream publishes the message to the stream partition's subject and
+// waits for the ack, if any. The caller is responsible for authorization.
+func (a *apiServer) publishToStream(ctx context.Context, subject string, req *client.PublishRequest) (
+	*client.PublishResponse, error) {
+
 	if e := a.ensurePublishPreconditions(req); e != nil {
 		return nil, convertPublishAsyncError(e)
 	}
